@@ -1,6 +1,7 @@
 import MpVerif.C01.ModelGadgets
 import MpVerif.C01.ModelProp
 import MpVerif.C01.ModelCompose
+import MpVerif.C01.ModelGadgets2
 import MpVerif.C01.ModelObjective
 import MpVerif.C01.ModelConvert
 /-!
@@ -122,7 +123,7 @@ def outStr (o : Out) : String :=
   | some r => s!"refusal {r.toString}"
   | none =>
     if o.unmodelled then "unmodelled" else
-    "ok |V|" ++ ";".intercalate (o.vars.map viStr) ++ "|C|" ++ " ; ".intercalate (o.cons.map conStr)
+    "ok |V|" ++ ";".intercalate (o.vars.map viStr) ++ "|C|" ++ " ; ".intercalate (o.cons.map fun c => conStr c.stored)
       ++ "|N|" ++ ";".intercalate (o.narrow.map fun (v, i) => s!"{v}:{viStr i}")
 
 /-- functional expression from `Kind;field;field…` (same field syntax as `funStr`) -/
@@ -377,6 +378,15 @@ def runOp (g : String) (a : Args) : Option String := do
   | "rangectx" => do
     let lb ← a.bound? "lb"; let ub ← a.bound? "ub"
     some ("ctx " ++ (rangeCtx lb ub).toString)
+  | "uenc" => do       -- CreateUnaryEncoding: taken=value:var,value:var
+    let v ← a.nat? "v"
+    let taken ← (a.get? "taken").getD "" |> parseList (fun t => match t.splitOn ":" with
+      | [k, r] => do some ((← parseInt? k), (← r.toNat?))
+      | _ => none)
+    some (outStr (gUnaryEncFull v B taken n))
+  | "mulbin" => do     -- LinearizeProductWithBinaryVar: the IfThen term (result variable n)
+    let b ← a.nat? "b"; let o' ← a.nat? "o"; let z ← a.nat? "zero"
+    some (outStr (gMulBinTerm b o' z B n))
   | "convert" => do    -- the reference converter (ModelConvert.lean) on an NL model of the fragment
     let n0 ← a.nat? "n0"
     let cons ← (a.get? "cons").getD "" |> parseBar parseNLCon?
